@@ -127,6 +127,31 @@ def check_tamper(vm, n):
     return 'ok-accepted'
 
 
+def check_any(vm, m):
+    """decode_check on every string of m alphabet characters: accepted iff it decodes to at least four bytes whose last four are
+    the checksum of the rest."""
+    from lbry.crypto.hash import double_sha256
+    txt = vm.new_str('txt', m, 49, 122)
+    for c in txt:
+        vm.assume(in_alphabet(vm, c))
+    raw = Base58.decode(txt)
+    try:
+        back = Base58.decode_check(txt)
+    except Base58Error:
+        if len(raw) >= 4 and raw[-4:] == double_sha256(raw[:-4])[:4]:
+            return 'VIOLATION: a correct checksum is rejected'
+        return 'ok-rejected'
+    except Exception as e:
+        return 'VIOLATION: decode_check raised %s' % type(e).__name__
+    if len(raw) < 4:
+        return 'VIOLATION: a string too short to carry a checksum is accepted'
+    if raw[-4:] != double_sha256(raw[:-4])[:4]:
+        return 'VIOLATION: a wrong checksum is accepted'
+    if back != raw[:-4]:
+        return 'VIOLATION: decode_check returns another payload'
+    return 'ok-accepted'
+
+
 def mnemonic(vm, words):
     m = Mnemonic('en')
     n = len(m.words)
@@ -197,6 +222,10 @@ def jobs(tier):
         out.append(dict(name=f'check-tamper-{n}', family='check', fn='check_tamper', args=(n,), loop_bound=200, max_depth=50,
                         cost=2000, query_timeout_ms=30000, incremental_timeout_ms=300,
                         bounds=dict(payload_bytes=n, check_bytes='4 arbitrary bytes'), must_reach=('ok-rejected', 'ok-accepted')))
+    for m in ((1, 2, 3) if tier == 'quick' else (1, 2, 3, 4)):
+        out.append(dict(name=f'check-any-{m}', family='check', fn='check_any', args=(m,), loop_bound=200, max_depth=50, cost=30 * 4 ** m,
+                        query_timeout_ms=30000, incremental_timeout_ms=300,
+                        bounds=dict(string_chars=m, alphabet='Base58 characters'), must_reach=('ok-rejected',)))
     for w in ((1, 2, 4, 12) if tier == 'quick' else (1, 2, 4, 12, 24)):
         out.append(dict(name=f'mnemonic-{w}words', family='mnemonic', fn='mnemonic', args=(w,), loop_bound=200, max_depth=50, cost=50 * w,
                         bounds=dict(i=f'[1, 2048^{w})'), must_reach=('ok',)))
